@@ -176,6 +176,7 @@ class Data2D(Block):
             and self.frequency == o.frequency
             and self.startTime == o.startTime
             and self.flags == o.flags
+            and np.array_equal(self._camMap, o._camMap)
             and all(
                 np.array_equal(self.data[i, j], o.data[i, j])
                 for i in range(self.nFrames)
